@@ -52,7 +52,7 @@ pub fn check_text(st: &mut Stats, text: &str, ordering: Option<Vec<(String, usiz
     }
     let names = ast.names_in_text_order();
     if names.len() > 10 {
-        return false;
+        return check_long(st, text, &ast, ordering, origin);
     }
     let order = expected_order(&ast, &ordering);
     let free_set = ast.free_names();
@@ -145,6 +145,85 @@ pub fn check_text(st: &mut Stats, text: &str, ordering: Option<Vec<(String, usiz
     true
 }
 
+/// Formulas with MANY names (long binder lists): no truth-table reference; the lists are compared
+/// with the reference binder analysis and the evaluated diagram may only test free names.
+/// Only fixed-point-free texts are evaluated.
+fn check_long(st: &mut Stats, text: &str, ast: &Ast, ordering: Option<Vec<(String, usize)>>, origin: &str) -> bool {
+    let case = || json!({"text": text, "ordering": ordering, "origin": origin});
+    let order = expected_order(ast, &ordering);
+    let free_set = ast.free_names();
+    let want_free: Vec<String> = order.iter().filter(|n| free_set.contains(n)).cloned().collect();
+    let ord_syms = ordering.as_ref().map(|o| o.iter().map(|(n, id)| NamedSymbol { name: Rc::new(n.clone()), id: *id }).collect::<Vec<_>>());
+    util::budget(STEP_CAP, 10);
+    let pf = match util::guarded(|| rsbdd::parser::ParsedFormula::new(&mut std::io::BufReader::new(text.as_bytes()), ord_syms)) {
+        Err(c) => {
+            st.violate("c09.panic", format!("C09:parse-{}", c.signature()), format!("`{}`: {:?}", text, c), case());
+            return true;
+        }
+        Ok(Err(e)) => {
+            st.violate("c09.accept", "C09:rejects-well-formed".into(), format!("`{}` rejected: {}", text, e), case());
+            return true;
+        }
+        Ok(Ok(pf)) => pf,
+    };
+    st.bump("many_names_cases");
+    st.max("max_names_in_a_text", order.len() as u64);
+    let fv: Vec<String> = pf.free_vars.iter().map(|v| v.name.as_ref().clone()).collect();
+    let vs: Vec<String> = pf.vars.iter().map(|v| v.name.as_ref().clone()).collect();
+    compare_lists(st, text, &fv, &vs, &want_free, &order, &case);
+    if !ast.has_kind(&|a| matches!(a, Ast::Fix(..))) {
+        util::budget(STEP_CAP, 10);
+        match util::guarded(|| pf.eval()) {
+            Ok(d) => {
+                let labs: Vec<String> = labels_of(&d).iter().map(|s| s.name.as_ref().clone()).collect();
+                st.add("diagram_labels_checked", labs.len() as u64);
+                if let Some(bad) = labs.iter().find(|l| !free_set.contains(l)) {
+                    st.violate("c09.no-leak", "C09:bound-name-in-answer".into(), format!("`{}`: the answer tests `{}`, which has no free occurrence (free: {:?})", text, bad, want_free), case());
+                }
+            }
+            Err(Caught::Budget(_)) => st.bump("budget_exceeded(inconclusive case)"),
+            Err(c) => st.violate("c09.panic", format!("C09:eval-{}", c.signature()), format!("`{}`: {:?}", text, c), case()),
+        }
+    }
+    st.nt.insert(util::hash_str(text));
+    true
+}
+
+/// Binder lists with 11-70 names, in an order unrelated to the variable order (the names were
+/// mentioned before in another order, or an ordering says otherwise), partly re-bound inside.
+fn long_binders(ctx: &Ctx, st: &mut Stats) {
+    let mut rng = Rng::stream(ctx.seed, "C09.long", 0);
+    let sizes: Vec<usize> = ctx.tier.pick(vec![11, 15, 16, 17, 18, 24, 33, 40], vec![11, 12, 15, 16, 17, 18, 19, 24, 31, 32, 33, 40, 64, 65, 70]);
+    for n in sizes {
+        for variant in 0..6 {
+            let names: Vec<String> = (0..n).map(|i| format!("x{}", i)).collect();
+            let mut shuffled = names.clone();
+            rng.shuffle(&mut shuffled);
+            let mut rev = names.clone();
+            rev.reverse();
+            let q = ["exists", "forall", "any", "all"][variant % 4];
+            let text = match variant {
+                // binder list in text order, then the same names bound again in another order
+                0 => format!("a & ({} {} # {}) & ({} {} # {})", q, names.join(", "), names.join(" | "), q, rev.join(", "), names.join(" & ")),
+                1 => format!("({} {} # {}) | ({} {} # {} & a)", q, names.join(", "), names.join(" ^ "), q, shuffled.join(", "), names[..3].join(" & ")),
+                // some of the names also free outside
+                2 => format!("{} & ({} {} # [{}] >= 2) & {}", names[n / 2], q, shuffled.join(", "), names[..8].join(", "), names[0]),
+                // nested re-binding of a part of the list
+                3 => format!("{} {} # ({} => exists {} # {})", q, shuffled.join(", "), names[1], rev[..n / 2].join(", "), names.join(" | ")),
+                // first mention inside the binder list itself, in shuffled order
+                4 => format!("{} {} # ({})", q, shuffled.join(", "), names.join(" <=> ")),
+                _ => format!("b | ({} {} # {}) | {}", q, shuffled[..n - 1].join(", "), names.join(" & "), shuffled[n - 1]),
+            };
+            check_text(st, &text, None, "long-binders");
+            // and under an ordering that reverses / shuffles the names
+            let mut ord_names = names.clone();
+            rng.shuffle(&mut ord_names);
+            let ordering: Vec<(String, usize)> = ord_names.iter().enumerate().map(|(i, s)| (s.clone(), 2 * i + 1)).collect();
+            check_text(st, &text, Some(ordering), "long-binders+ordering");
+        }
+    }
+}
+
 fn compare_lists(st: &mut Stats, text: &str, fv: &[String], vs: &[String], want_free: &[String], order: &[String], case: &dyn Fn() -> Value) {
     // sets must be exact; `vars` lists each name once; `free_vars` must be listed in the same
     // (variable) order as `vars`. Which order the tool gives to unlisted variables is not part of
@@ -191,7 +270,7 @@ fn random_job(ctx: &Ctx, job: usize, iters: u64) -> Stats {
     let mut st = Stats::new();
     let mut rng = Rng::stream(ctx.seed, "C09.random", job as u64);
     for it in 0..iters {
-        let pool: &[&str] = if it % 5 == 0 { &gen::FANCY_NAMES } else { &gen::PLAIN_NAMES };
+        let pool: &[&str] = if it % 5 == 0 { &gen::FANCY_NAMES } else if it % 10 == 1 { &gen::MARK_NAMES } else { &gen::PLAIN_NAMES };
         let k = 2 + rng.usize(3);
         let mut names: Vec<&str> = pool.to_vec();
         rng.shuffle(&mut names);
@@ -262,6 +341,7 @@ fn exhaustive_job(job: usize, jobs: usize) -> Stats {
 pub fn run(ctx: &Ctx) -> (Stats, Spec) {
     let mut st = Stats::new();
     positional(&mut st);
+    long_binders(ctx, &mut st);
     let parts = util::par_jobs(32, |job| exhaustive_job(job, 32));
     st.merge(crate::report::merge_all(parts));
     st.exhaustive.push("all stacks of <= 3 binders (exists/forall/lfp/gfp on x, y, z; two-name lists; the empty list) around 8 cores, with and without a free copy outside; every construct as the position of the free occurrence under 10 binder contexts".into());
@@ -269,12 +349,13 @@ pub fn run(ctx: &Ctx) -> (Stats, Spec) {
     let parts = util::par_jobs(16, |job| random_job(ctx, job, iters));
     st.merge(crate::report::merge_all(parts));
     let spec = Spec {
-        rule: "binder-heavy random formulas over 2-4 names (also primed / non-ASCII), with and without an explicit ordering (permutation, subset, superset with unused names, sparse unsorted ids); exhaustive binder skeletons; positional forms. free_vars / vars are compared as ordered name lists with the reference binder analysis and order rule; labels of the evaluated diagram must be free names. distinct = (text, ordering); non-trivial = the formula contains a binder that binds at least one name.".into(),
+        rule: "binder-heavy random formulas over 2-4 names (also primed / non-ASCII), with and without an explicit ordering (permutation, subset, superset with unused names, sparse unsorted ids); exhaustive binder skeletons; positional forms; binder lists with 11-70 names in an order unrelated to the variable order (re-bound in reverse / shuffled order, partly free outside, nested re-binding, with and without an ordering). free_vars / vars are compared as ordered name lists with the reference binder analysis and order rule; labels of the evaluated diagram must be free names. distinct = (text, ordering); non-trivial = the formula contains a binder that binds at least one name.".into(),
         assumptions: vec!["reference-free formulas only (as the statement says); non-convergent fixed points are parsed but not evaluated".into()],
         floors: vec![
             ("name_both_bound_and_free".into(), 1_000, "names both bound and free hardly exercised".into()),
             ("name_only_bound".into(), 1_000, "names occurring only bound hardly exercised".into()),
             ("positional_forms".into(), 100, "positional forms not judged".into()),
+            ("many_names_cases".into(), 50, "long binder lists not exercised".into()),
             ("binder_skeletons".into(), 10_000, "binder skeletons not judged".into()),
             ("distinct_nontrivial".into(), 20_000, "too few non-trivial cases".into()),
         ],
